@@ -1166,6 +1166,48 @@ fn huge_suffixes(rng: &mut Rng, frame_len: usize) -> Vec<Vec<u8>> {
     out
 }
 
+/// the frame directly after a near copy of itself (one payload bit different, checksum
+/// recomputed), both pulled from one iterator: what the second frame decodes to must be what it
+/// decodes to alone (nothing may be remembered from the frame before)
+fn c13_after_near_copy(ctx: &mut Ctx, rng: &mut Rng, f: &[u8]) {
+    let l = f.len() - 6;
+    if l < 3 {
+        return;
+    }
+    ctx.eval();
+    let mut near = f.to_vec();
+    let pos = 24 + 12 + rng.usize_below(l * 8 - 12);
+    bits::flip_bit(&mut near, pos);
+    crc::fix_crc(&mut near);
+    let mut buf = near.clone();
+    buf.extend_from_slice(f);
+    let alone = match attrs_of(f) {
+        Ok(Some(x)) => x,
+        _ => return,
+    };
+    let r = guard(|| {
+        let mut it = MsgFrameIter::new(&buf);
+        let a = (&mut it).next().map(|fr| fr.get_message());
+        let b = (&mut it).next().map(|fr| (fr.message_number(), fr.data().to_vec(), fr.crc(), fr.get_message()));
+        (a.is_some(), b)
+    });
+    ctx.count("frames_decoded_after_a_near_copy");
+    match r {
+        Ok((true, Some((num, data, crcv, m)))) => {
+            if num != alone.0.number || data != alone.0.data || crcv != alone.0.crc || m != alone.1 {
+                ctx.violation(
+                    format!("C13.independent_of_previous_frame|{}", if m != alone.1 { "decoded_message" } else { "accessors" }),
+                    "C13.independent_of_previous_frame",
+                    format!("frame decodes differently directly after a near copy of itself (bit {} differs): alone {}, after the near copy {}", pos, alone.0.message, msg_class(&m)),
+                    json!({"kind":"near_copy","hex":hex(f),"near":hex(&near)}),
+                );
+            }
+        }
+        Ok(_) => ctx.violation("C13.independent_of_previous_frame|not_delivered".into(), "C13.independent_of_previous_frame", "one of two valid back-to-back frames was not delivered".into(), json!({"kind":"near_copy","hex":hex(f),"near":hex(&near)})),
+        Err(_) => ctx.count("panics_left_to_C02"),
+    }
+}
+
 fn suffix_set(rng: &mut Rng) -> Vec<Vec<u8>> {
     let mut v: Vec<Vec<u8>> = Vec::new();
     v.push(vec![rng.u8()]);
@@ -1218,6 +1260,7 @@ pub fn c13(p: &Params) -> Outcome {
                     ctx.count("frames_with_suffixes_beyond_64KiB");
                 }
                 c13_check(ctx, &f, &sfx, "typed_frames");
+                c13_after_near_copy(ctx, &mut rng, &f);
             }
         }
     });
